@@ -30,7 +30,8 @@ def run(chk: Check):
     traces = [D.direct_trace(rng) for _ in range(150 if chk.quick else 3000)]
     traces += D.enumerated_direct_traces([0.0, 0.25, 0.5, 0.75, 1.0], 3 if chk.quick else 5,
                                          [0.25, 0.5, 0.75, 0.8])
-    c1 = (0.3, 0.05, 0.75, 10, 0.5)
+    # every dual-averaging constant differs from the kernels' defaults (0.05, 0.75, 10) in both sets
+    c1 = (0.3, 0.2, 0.9, 25, 0.5)
     c2 = (0.8, 0.1, 0.6, 3, 0.05)
     traces += D.engine_traces(["rw", "mh_on", "mh_off"], c1, D.SCHEDULES[0], chains=2, seed=chk.seed)
     traces += D.engine_traces(["iwls"], c2, D.SCHEDULES[1], chains=2, seed=chk.seed + 1)
